@@ -68,12 +68,22 @@ let join_n (l : n list) = String.concat " " (List.map string_of_n l)
 
 (* driver main: one "T id" line per trace, then one line per input line; a model Fault prints
    "CRASH model:<fault>" and the rest of the trace is skipped. *)
+exception Model_timeout
 let main (run : string list -> unit) =
+  (* a changed generated definition can make the model diverge or build astronomically large values on some
+     trace: bound every trace in time, like the harness does (alarm in the forked child) *)
+  Sys.set_signal Sys.sigalrm (Sys.Signal_handle (fun _ -> raise Model_timeout));
+  let timeouts = ref 0 in
   List.iter (fun tr ->
+    (* after a few timed-out traces the remaining ones get a short limit: the run must end *)
+    ignore (Unix.alarm (if !timeouts < 3 then 20 else 2));
     (match split_ws (List.hd tr) with
      | _ :: id :: _ -> Printf.printf "T %s\n" id
      | _ -> ());
     (try run tr with
      | Crash f -> Printf.printf "\nCRASH model:%s\n" (fault_name f)
+     | Model_timeout -> incr timeouts; Printf.printf "\nCRASH model:Timeout\n"
+     | Out_of_memory -> Printf.printf "\nCRASH model:OutOfMemory\n"
      | Stack_overflow -> Printf.printf "\nCRASH model:StackOverflow\n");
+    ignore (Unix.alarm 0);
     flush stdout) (traces (read_lines ()))
